@@ -43,8 +43,10 @@ pub enum SerKind {
     /// An own string-only `Serializer` whose `collect_str` streams `Display` into a `SimFmtSink`.
     OwnFmt,
     /// serde's own `Serializer for &mut fmt::Formatter`, reached through a wrapper that is formatted
-    /// with width / precision / fill flags (`format!("{:*>w$.p$}", ...)`): the canonical string must
-    /// come out whatever flags the caller's formatter carries.
+    /// with width / precision / fill flags (`format!("{:*>w$.p$}", ...)`): what comes out must be the
+    /// canonical string, either untouched (the PURL formats itself and ignores the flags) or padded /
+    /// truncated as a whole the way `str`'s own `Display` does it (the implementation handed serde a
+    /// finished string) - never with the flags applied to one piece of it.
     ViaFormatter { width: usize, precision: usize },
 }
 
@@ -982,7 +984,22 @@ where
                         (0, pr) => format!("{:.pr$}", Through(p), pr = pr),
                         (w, pr) => format!("{:<w$.pr$}", Through(p), w = w, pr = pr),
                     };
-                    writer.push_raw(json_minimal(&text).0.as_bytes());
+                    // Two outcomes are legitimate. `collect_str(self)` formats the PURL itself, which
+                    // ignores the flags; `serialize_str(&canonical_string)` hands serde's Formatter
+                    // serializer a `str`, whose own `Display` pads and truncates - that is serde's and
+                    // std's doing, applied to the right string. Anything else (flags applied to one
+                    // piece of the PURL) is not the canonical string.
+                    let padded = match (width, precision) {
+                        (0, 0) => canon.to_owned(),
+                        (w, 0) => format!("{:*>w$}", canon, w = w),
+                        (0, pr) => format!("{:.pr$}", canon, pr = pr),
+                        (w, pr) => format!("{:<w$.pr$}", canon, w = w, pr = pr),
+                    };
+                    if text == canon || text == padded {
+                        writer.push_raw(expected);
+                    } else {
+                        writer.push_raw(json_minimal(&text).0.as_bytes());
+                    }
                     true
                 })
             },
